@@ -79,9 +79,13 @@ def harness_bin(name, config='default'):
     return f"{HARNESS}/{CONFIGS[config]['target']}/release/{name}"
 
 
-def build_harness(ctx, configs=('default',)):
-    """cargo build of the harness crate against the CURRENT working tree of /repo (path dependency)."""
+def build_harness(ctx, configs=('default',), optional=()):
+    """cargo build of the harness crate against the CURRENT working tree of /repo (path dependency).
+    A configuration listed in `optional` is one the property does not speak about (an extra campaign of the check): when
+    it does not compile while the others do, its campaign is skipped and recorded, no alarm (C01/C02, whose statements
+    name both configurations, keep it mandatory and report it)."""
     ok = True
+    if not hasattr(ctx, 'unbuilt'): ctx.unbuilt = set()
     # CC_REPO (used by background runs on a snapshot of the repository) re-targets the path dependency
     ct = HARNESS + '/Cargo.toml'; txt = open(ct).read()
     want = re.sub(r'path = "[^"]*"', f'path = "{REPO}"', txt, count=1)
@@ -94,6 +98,10 @@ def build_harness(ctx, configs=('default',)):
             env = {'RUSTFLAGS': f'--cfg {GUARD}', 'CC_REPO': REPO}
             r = sh(cmd, cwd=HARNESS, env=env, timeout=3000)
             good = r.returncode == 0
+            if not good and cfg in optional:
+                ctx.unbuilt.add(cfg)
+                ctx.assumptions.append(f'the {cfg} build (p-256 + ML-KEM-768) does not compile on this tree: its extra campaign was skipped (reported by C01/C02, whose statements cover both configurations)')
+                continue
             ctx.ob('build', f'harness builds against {REPO} ({cfg})', good, (r.stderr or '')[-1500:])
             ok = ok and good
     return ok
